@@ -8,22 +8,22 @@ import (
 
 // GenCfg parametrises the control-flow generator.
 type GenCfg struct {
-	MaxDepth   int
-	MaxStmts   int     // statements per nested block
-	TopStmts   int     // statements per script body
-	ExprMax    int     // max leaves of a compound condition
-	CompoundP  int     // 1-in-N conditions are compound (0 = never)
-	Auto       AutoCfg // AutoVar commands that may be used as leaves / switch operands
-	AutoP      int     // 1-in-N leaves are AutoVar leaves (0 = never)
-	NoLabels   bool
-	NoGoto     bool
-	NoEndRet   bool
-	NoSwitch   bool
-	NoLoops    bool
-	SymCases   bool // switch case values may be symbols / hex
-	InlineText bool // commands may carry an inline text / moves() argument
+	MaxDepth    int
+	MaxStmts    int     // statements per nested block
+	TopStmts    int     // statements per script body
+	ExprMax     int     // max leaves of a compound condition
+	CompoundP   int     // 1-in-N conditions are compound (0 = never)
+	Auto        AutoCfg // AutoVar commands that may be used as leaves / switch operands
+	AutoP       int     // 1-in-N leaves are AutoVar leaves (0 = never)
+	NoLabels    bool
+	NoGoto      bool
+	NoEndRet    bool
+	NoSwitch    bool
+	NoLoops     bool
+	SymCases    bool // switch case values may be symbols / hex
+	InlineText  bool // commands may carry an inline text / moves() argument
 	NoBreakTail bool // never generate statements after break in the same block
-	MaxLabels  int
+	MaxLabels   int
 }
 
 // DefaultCF is the control-flow profile of C01.
